@@ -12,7 +12,7 @@ SPEC = {
     "theorems": {"DiffcalcProofs.Props.TieSolver": ["TieSolver.phiAndQaz_generated", "TieSolver.chiAndQaz_generated", "TieSolver.qazValue_generated", "TieSolver.small_generated", "TieSolver.bound_generated", "TieSolver.sign_generated", "TieSolver.sampleFromChiEta_generated", "TieSolver.detFromQaz_generated", "TieSolver.anglesEquivalent_generated", "TieSolver.refConChiMu_generated", "TieSolver.refConMuPhi_generated", "TieSolver.refConEtaPhi_generated", "TieSolver.refConChiPhi_generated", "TieSolver.sampleConPhi_generated", "TieSolver.sampleConChi_generated", "TieSolver.sampleConEta_generated", "TieSolver.sampleConMuChi_generated", "TieSolver.sampleConEtaPhi_generated", "TieSolver.sampleConEtaChi_generated", "TieSolver.sampleConMuPhi_generated", "TieSolver.sampleConMuEta_generated", "TieSolver.detFromDelta_generated", "TieSolver.detFromNu_generated", "TieSolver.sampleConMu_generated"],
         "DiffcalcProofs.Props.C01": [
         "C01.getPosition_guard", "C01.getPosition_pairs_virtualAngles", "C01.guard_forward_model", "C01.composition",
-        "C01.detFromQaz_sound", "C01.threeSample_detector_sound", "C01.twoSampleAndReference_detector_sound"],
+        "C01.detFromQaz_sound", "C01.threeSample_detector_sound", "C01.twoSampleAndReference_detector_sound", "C01.bound_clips_in_band"],
         "DiffcalcProofs.Props.C01Sample": [
         "C01.sampleSpec_of_inner", "C01.rot_solve", "C01.asin_roots", "C01.acos_roots", "C01.sampleConMuEta_sound", "C01.sampleConMuEta_sound'",
         "C01.sampleConOmegaBisect_sound", "C01.sampleConMuBisect_sound", "C01.sampleConEtaBisect_sound", "C01.sampleConMuPhi_sound",
@@ -122,10 +122,77 @@ def check_element(ub, hkl, wl, pos, va, hc):
     return None
 
 
+def clip_band(ub, vals, hkl, wl, err):
+    """Is this inexact position the recorded finding 'bound() clips at a turning point'?  Decided by an experiment on the real code, never by
+    the look of the input: (i) the error is no larger than a clip of 1e-7 in a sine / cosine can cause at the turning point of asin / acos
+    (sqrt(2e-7) rad of angle, times |hkl|); (ii) in the run as it is, every argument `bound` let through is within the documented 1e-7 of
+    [-1, 1] and at least one was clipped; (iii) with a strict `bound` (1e-12) the same request raises DiffcalcException or returns only
+    exact positions — i.e. the request has no solution nearby and the inexact answer exists only because of the clip."""
+    import sys
+    import diffcalc.util as U
+    from diffcalc.hkl.calc import HklCalculation
+    from diffcalc.hkl.constraints import Constraints
+    from diffcalc.util import DiffcalcException
+    if not err <= 5e-4 * (1e-9 + float(np.linalg.norm(np.asarray(hkl, float)))):
+        return False
+    orig = U.bound
+    mods = [m for n, m in list(sys.modules.items()) if n.startswith("diffcalc") and getattr(m, "bound", None) is orig]
+    seen = []
+
+    def recording(x):
+        r = orig(x)
+        seen.append(float(x))
+        return r
+
+    def strict(x):
+        if abs(x) > 1 + 1e-12:
+            raise AssertionError("strict bound")
+        return orig(x)
+    try:
+        for m in mods:
+            m.bound = recording
+        with quiet():
+            try:
+                HklCalculation(ub, Constraints(vals)).get_position(*hkl, wl)
+            except DiffcalcException:
+                pass
+        if not seen or max(abs(x) for x in seen) > 1 + 1e-7 or max(abs(x) for x in seen) <= 1:
+            return False
+        for m in mods:
+            m.bound = strict
+        with quiet():
+            try:
+                res = HklCalculation(ub, Constraints(vals)).get_position(*hkl, wl)
+            except DiffcalcException:
+                return True
+        UB = np.asarray(ub.UB, float)
+        return all(np.abs(fwd(UB, [float(x) for x in p.astuple], wl) - np.asarray(hkl, float)).max() <= 1e-6 * (1 + np.abs(np.asarray(hkl, float)).max()) for p, _ in res)
+    except Exception:  # noqa
+        return False
+    finally:
+        for m in mods:
+            m.bound = orig
+
+
+def clip_witness():
+    """the recorded input of the finding (runs first in every oracle pass)"""
+    from diffcalc.ub.calc import UBCalculation
+    UB = np.array([[1.4765218393487625, -0.11222697907444408, -0.10459706883882168], [0.46765216295153245, 1.1732214109119319, 0.15283621515037976],
+                   [0.17636468731845154, -0.39585847563284304, 0.9974217997851268]])
+    with quiet():
+        ub = UBCalculation("t")
+        ub.set_lattice("x", 4.1, 5.2, 6.3, 80, 95, 100)
+        ub.set_u((UB @ np.linalg.inv(np.asarray(ub.crystal.B, float))).tolist())
+    ub.n_phi = (-0.35215896353508336, 0.9092994124744945, 0.22171748437016606)
+    ub.surf_nphi = (0.6467545445676384, 0.5413545951968466, -0.5372557690154337)
+    return (ub, {"mu": -117.89539594912235, "eta": 174.8329380440652, "chi": -76.01666966764174},
+            (-7.621650516216889, -1.7803638585369892, -1.502546462992199), 1.0000001587917913, "witness:bound-clip")
+
+
 def oracle(ctx, widen=1):
     from diffcalc.hkl.calc import HklCalculation
     from diffcalc.hkl.constraints import Constraints
-    reqs = requests(ctx, ctx.scale(3, 200) * widen, ctx.scale(1, 50)) + PL.degenerate_requests(ctx.rng, ctx.scale(60, 3000) * widen) + PL.diagonal_axis_requests(ctx.rng, ctx.scale(2000, 40000) * widen)
+    reqs = [clip_witness()] + requests(ctx, ctx.scale(3, 200) * widen, ctx.scale(1, 50)) + PL.degenerate_requests(ctx.rng, ctx.scale(60, 3000) * widen) + PL.diagonal_axis_requests(ctx.rng, ctx.scale(2000, 40000) * widen)
     ok_modes = set()
     elements = 0
     for ub, vals, hkl, wl, tag in reqs:
@@ -159,9 +226,13 @@ def oracle(ctx, widen=1):
             elements += 1
             bad = check_element(ub, hkl, wl, pos, va, hc)
             if bad:
+                sig = {"kind": "wrong-position", "mode": ",".join(sorted(vals))}
+                if "diffracts at" in bad:
+                    err = float(np.abs(fwd(np.asarray(ub.UB, float), pos, wl) - np.asarray(hkl, float)).max())
+                    if clip_band(ub, vals, hkl, wl, err):
+                        sig = {"kind": "wrong-position", "cause": "bound-clip-at-turning-point"}
                 ctx.violation(f"mode {sorted(vals)} [{tag}]: {bad}", {"constraints": vals, "hkl": list(hkl), "wl": wl, "UB": np.asarray(ub.UB).tolist(),
-                                                                      "n_phi": PL.vectors(ub)[0].tolist(), "surf_nphi": PL.vectors(ub)[1].tolist()},
-                              {"kind": "wrong-position", "mode": ",".join(sorted(vals))})
+                                                                      "n_phi": PL.vectors(ub)[0].tolist(), "surf_nphi": PL.vectors(ub)[1].tolist()}, sig)
                 break
     ctx.stream("oracle:forward-model-on-results", len(reqs), len(ok_modes), returned_elements=elements)
     # sequences: the same request repeated after the calculation changed
